@@ -300,7 +300,8 @@ func (mm *MetricMap) receiveGauge(m *Metric, tagsKey string) {
 	if ok {
 		g, ok := v[tagsKey]
 		if ok {
-			if m.Timestamp > g.Timestamp {
+			// >=: all lines of a datagram share one timestamp and the last value received must win
+			if m.Timestamp >= g.Timestamp {
 				g.Value = m.Value
 				g.Timestamp = m.Timestamp
 			}
